@@ -199,6 +199,8 @@ Fixpoint find_key (e : expr) (keys : list expr) (i : nat) : option nat :=
   | k :: ks => if expr_eqb e k then Some i else find_key e ks (S i)
   end.
 
+Definition single_star (items : list item) : bool := match items with [IStar] => true | _ => false end.
+
 Definition aggs_of (items : list item) : list aggcall :=
   flat_map (fun i => match i with IAgg f d a _ => [(f, d, a)] | _ => [] end) items.
 
@@ -443,7 +445,7 @@ Inductive plan :=
 | PRequalify (alias : name) (p : plan)
 | PFilter (e : expr) (p : plan)
 | PMap (items : list item) (p : plan)
-| PGroupMap (keys : list expr) (aggs : list aggcall) (cols : list nat) (out : schema) (p : plan)
+| PGroupMap (keys : list expr) (aggs : list aggcall) (cols : outcome (list nat)) (out : schema) (p : plan)
                                                         (* GroupBy node + the Map of Variables over its output *)
 | PDistinct (p : plan)
 | POrderLimit (ob : list (expr * bool)) (lim : option Z) (p : plan).
@@ -451,26 +453,25 @@ Inductive plan :=
 
 Section PlanOf.
   Variable pinned : bool.
-  (* parser.ParseSelect, ParseNestedNode, ParseAliasedTableExpression *)
-  Fixpoint plan_of_q (q : query) : outcome plan :=
+  (* parser.ParseSelect, ParseNestedNode, ParseAliasedTableExpression.  A select list the parser rejects
+     (group_cols fails) is kept in the node as the error, so that it surfaces when the node runs. *)
+  Fixpoint plan_of_q (q : query) : plan :=
     match q with
     | Q dist items from wh gb ob lim =>
-      obind (plan_of_src from) (fun p0 =>
+      let p0 := plan_of_src from in
       let p1 := match wh with Some e => PFilter e p0 | None => p0 end in
-      obind (if grouping pinned items gb
-             then obind (group_cols items gb 0) (fun cols => Ok (PGroupMap gb (aggs_of items) cols (out_schema [] items) p1))
-             else match items with
-                  | [IStar] => Ok p1                   (* no Map node for SELECT * FROM xyz *)
-                  | _ => if existsb is_agg_item items then Err e_type else Ok (PMap items p1)
-                  end) (fun p2 =>
+      let p2 := if grouping pinned items gb
+                then PGroupMap gb (aggs_of items) (group_cols items gb 0) (out_schema [] items) p1
+                else if single_star items then p1          (* no Map node for SELECT * FROM xyz *)
+                else PMap items p1 in
       let p3 := if dist then PDistinct p2 else p2 in
-      Ok (match ob, lim with [], None => p3 | _, _ => POrderLimit ob lim p3 end)))
+      match ob, lim with [], None => p3 | _, _ => POrderLimit ob lim p3 end
     end
-  with plan_of_src (s : source) : outcome plan :=
+  with plan_of_src (s : source) : plan :=
     match s with
-    | STable t alias => Ok (PScan t alias)
-    | SSub q alias => obind (plan_of_q q) (fun p => Ok (PRequalify alias p))
-    | SCte n => Ok (PCte n)
+    | STable t alias => PScan t alias
+    | SSub q alias => PRequalify alias (plan_of_q q)
+    | SCte n => PCte n
     end.
 End PlanOf.
 
@@ -606,10 +607,11 @@ Section Run.
                       Ok (mkrel (out_schema (rsch r) items) rows)))
     | PGroupMap keys aggs cols out p =>
         obind (run_plan ctes p) (fun r =>
+        obind cols (fun cols =>
         obind (mapM (eval_keyed (rsch r) keys aggs) (rrows r)) (fun kl =>
         obind (group_node aggs kl) (fun grows =>
         obind (mapM (project cols) grows) (fun rows =>
-        Ok (mkrel out rows)))))
+        Ok (mkrel out rows))))))
     | PDistinct p => obind (run_plan ctes p) (fun r => Ok (mkrel (rsch r) (distinct_node (rrows r))))
     | POrderLimit ob lim p =>
         obind (run_plan ctes p) (fun r =>
@@ -632,11 +634,10 @@ Section ExecTop.
   Fixpoint exec_ctes (ctes : list (name * rel)) (defs : list (name * query)) : outcome (list (name * rel)) :=
     match defs with
     | [] => Ok ctes
-    | (n, q) :: rest => obind (plan_of_q pinned q) (fun p => obind (run_plan tables ctes p) (fun r =>
-                        exec_ctes ((n, r) :: ctes) rest))
+    | (n, q) :: rest => obind (run_plan tables ctes (plan_of_q pinned q)) (fun r => exec_ctes ((n, r) :: ctes) rest)
     end.
   Definition exec_top_gen (t : top) : outcome rel :=
-    obind (exec_ctes [] (fst t)) (fun ctes => obind (plan_of_q pinned (snd t)) (run_plan tables ctes)).
+    obind (exec_ctes [] (fst t)) (fun ctes => run_plan tables ctes (plan_of_q pinned (snd t))).
 End ExecTop.
 Definition exec_top : db -> top -> outcome rel := exec_top_gen false.
 Definition exec_top_pinned : db -> top -> outcome rel := exec_top_gen true.
